@@ -274,6 +274,26 @@ class CFG:
                     stack.append(m)
         return seen
 
+    def reachable_under(self, starts, facts):
+        """Nodes reachable from `starts` when the atomic tests listed in `facts` have the given truth values (source.truth): a test whose value is decided by the
+        facts is left through that edge only, every other test through both.  Path-sensitive reachability for questions like "can the scoring be reached when the
+        two names differ?" - independent of how the tests are nested, ordered or negated.  (Facts are about values that the paths in question do not reassign.)"""
+        from .source import truth
+        seen = set()
+        stack = list(starts)
+        while stack:
+            n = stack.pop()
+            if n in seen:
+                continue
+            seen.add(n)
+            v = truth(n.ast, facts) if n.kind == "test" and n.ast is not None and isinstance(n.ast, ast.expr) else None
+            for m, lab in n.succ:
+                if v is not None and lab in (True, False) and lab is not v:
+                    continue
+                if m not in seen:
+                    stack.append(m)
+        return seen
+
     def must_pass(self, a, b, through, include_a=False):
         """Every path a ->* b passes a node of `through` (strictly between, unless a
         itself is in `through` and include_a)."""
